@@ -287,6 +287,7 @@ class Run:
                         reclaimed0 = int(self.eng.cmd("!hits cp_reclaim_deleted").get("hits", 0))
                         self.eng.cmd("!bgcompact 0")
                         self.snaps = getattr(self, "snaps", [])
+                        committed = 0
                         t_end = _t.time() + 25
                         while _t.time() < t_end:
                             hit = None
@@ -302,6 +303,16 @@ class Run:
                                 ix = self.eng.cmd("!index 0").get("index") or []
                                 self.snaps.append({"at": x, "after_obs": len(self.obs), "hashes": d["segs"],
                                                    "listed": sorted(int(e.split(":")[0]) for e in ix)})
+                                if x == A and op[1:] and op[1] == "read" and committed > 0:
+                                    # a read in the middle of the round: the previous batch is committed (inputs retired,
+                                    # output live), the next one has written its output and holds no lock (the step
+                                    # point at the live-list update is taken while that list is write-locked, so reads
+                                    # wait there) - every event exactly once
+                                    self.drain_trace()
+                                    self.observe()
+                                    self.obs[-1]["parked_at"] = "cp_between_batches"
+                                if x == B:
+                                    committed += 1
                                 self.eng.cmd(f"!park {other}")
                                 self.eng.cmd(f"!release {x}")
                             elif self.eng.cmd("!bgcdone").get("done"):
@@ -563,8 +574,9 @@ def compare_obs(impl_o, model_s, ntypes, nctx):
         # (a quiescent observation at which the model still has an unfinished flush job means the engine's flush
         # failed after writing files - seen when a flush raced a compaction hand-over; the model has no account of
         # a failed flush, so COUNT is left to the oracle there)
-        failed_flush = not impl_o.get("parked_at") and m.get("jobs", "0") not in ("0", "")
-        if not impl_o.get("parked_at") and not fragile and not failed_flush and not (stale_ok and impl_o[f"sel{u}"] != msel) \
+        failed_flush = m.get("jobs", "0") not in ("0", "") and (not impl_o.get("parked_at") or str(impl_o.get("parked_at")).startswith("cp_"))
+        quiet = not impl_o.get("parked_at") or str(impl_o.get("parked_at")).startswith("cp_")   # no flush in flight
+        if quiet and not fragile and not failed_flush and not (stale_ok and impl_o[f"sel{u}"] != msel) \
                 and impl_o[f"cnt{u}"] != int(m.get(f"cnt{u}", "0") or 0):
             diffs.append(f"cnt{u}: impl {impl_o[f'cnt{u}']} model {m.get(f'cnt{u}')}")
     for u in range(ntypes):
